@@ -246,14 +246,17 @@ pub open spec fn solved_by_route(a: Seq<f64>, n: int, b: Seq<f64>, x: Seq<f64>) 
 '''
 UNWRAP_M = ('is_square(m).unwrap()', 'match is_square(m) { Ok(v_) => v_, Err(_) => ::core::panicking::panic("unwrap") }', 'R2b')
 SQM = '(exists|k: int| 0 <= k && #[trigger] (k * k) == m@.len())'
-is_pd = Fn(U + 'is_positive_definite', ret='r', level='L1', valid=SQM, panics={1: 'REJECT'}, rewrites=[UNWRAP_M],
+is_pd = Fn(U + 'is_positive_definite', ret='r', level='L1', valid=SQM, panics={1: 'REJECT'},
+           rewrites=[UNWRAP_M, (r'if m\[i \* n \+ i\] (<=|<|>=|>|==|!=) 0\. \{ return false; \}',
+                                r'if m[i * n + i] \1 0. { proof { lemma_sq_unique(n as int, m@.len() as int); assert(!diag_pos(m@, n as int)) by { assert(!(rv(at2(m@, n as int, i as int, i as int)) > 0real)); } } return false; }',
+                                'proof hint inside the early exit (comparison kept verbatim)', 're')],
            requires=['C01.machine:: m@.len() <= 0x7fff_ffff'],
            ensures=['C01.is_pd.valid:: ' + SQM, 'C01.is_pd.def:: forall|n: int| 0 <= n && n * n == m@.len() ==> (r == #[trigger] pd_test(m@, n))'],
            loops={1: {'invariant': ['n * n == m@.len()', 'm@.len() <= 0x7fff_ffff', 'sym_eps(m@, n as int)', 'C01.is_pd.diag:: forall|q: int| 0 <= q < i ==> rv(#[trigger] at2(m@, n as int, q, q)) > 0real'],
                       'body_start': 'lemma_idx(i as int, i as int, n as int, n as int);'}},
            hints=[('if !is_symmetric(m)', 'before', 'proof { if exists|k: int| 0 <= k && #[trigger] (k * k) == m@.len() { let k0 = choose|k: int| 0 <= k && #[trigger] (k * k) == m@.len(); lemma_sq_unique(k0, m@.len() as int); } }'),
                   ('let n = ', 'after', 'proof { lemma_sq_unique(n as int, m@.len() as int); }'),
-                  ('if m[i * n + i] <= 0. { return false; }', 'replace', 'if m[i * n + i] <= 0. { proof { lemma_sq_unique(n as int, m@.len() as int); assert(!diag_pos(m@, n as int)) by { assert(!(rv(at2(m@, n as int, i as int, i as int)) > 0real)); } } return false; }'),
+
                   ('\n            true\n', 'replace', '\n proof { lemma_sq_unique(n as int, m@.len() as int); }\n true\n')])
 
 UNITS = [
